@@ -4,8 +4,9 @@ Theorems: coq/Props/C06.v (the SET of result tables by producing step, and 'ever
 schedule-independent for every plan).  Table CONTENTS: compared on the real mloda across
   SYNC  vs  THREADING under the gating scheduler (PRNG release orders; histories replayed in Coq by chk_gated)
         vs  MULTIPROCESSING with a long-lived Arrow Flight server (repeated sampling).
-A plan is classified in Coq by conflict_free (two steps not ordered by the wait-for relation touching one object): only
-plans that fail it, or lie in one of the planner-defect domains, may diverge as known findings.
+A plan is classified in Coq by conflict_free (two steps not ordered by the wait-for relation touching one object), narrowed by
+conflict_free_ip && ip_cols_ok (Props/C06inplace.v: unordered steps that are BOTH observed to compute in place on one object and touch
+different columns are no hazard): only plans that fail both, or lie in one of the planner-defect domains, may diverge as known findings.
 """
 from __future__ import annotations
 
@@ -18,7 +19,7 @@ from lib import vlib
 from lib.vlib import cq_bool, cq_list, cq_nat
 from harness.universe import Universe, export_plan, kf_tfs_partial_requirement, kf_framework_roundtrip, kf_tfs_missing
 from harness.orch import GateListener, run_observed, cq_plan, install, flight_server, stop_flight_server
-from harness.c01 import gen_specs, one_spec, canon_result, cq_foot, cq_status, EXTRA
+from harness.c01 import gen_specs, one_spec, canon_result, cq_foot, cq_status, EXTRA, cfip_term, CFIP_TYPE
 
 LEVEL = "proof"
 logging.disable(logging.CRITICAL)
@@ -37,12 +38,16 @@ def run(rep: vlib.Reporter, tier: str, seed: int) -> None:
     rep.proof(pr)
     pr2 = vlib.build_props("C06conf")     # data plane: independent steps commute, linearisations agree, conflict_free => confluent
     rep.proof(pr2)
-    pr.ok = pr.ok and pr2.ok
-    pr.failed_files += pr2.failed_files
+    pr3 = vlib.build_props("C06inplace")  # in-place calculations: conflict_free may be weakened to conflict_free_ip
+    rep.proof(pr3)
+    pr.ok = pr.ok and pr2.ok and pr3.ok
+    pr.failed_files += pr2.failed_files + pr3.failed_files
     rep.coverage["trusted_base"] += [
         "Model/Orch.v (orchestrator) is proved mode-independent at the level of WHICH steps run and WHICH results are collected; "
-        "the data plane (shared cfw.data read-modify-write, Flight upload/download) is not modelled: contents are compared on "
-        "the implementation, and conflict_free (Model/OrchCheck.v) only classifies plans",
+        "the data plane is modelled for merge-free plans (Model/DataPlane.v, DataPlaneConc.v: replacing steps; DataPlaneInPlace.v: "
+        "in-place steps on a heap of mutable frames - one atomic event per inserted column); Flight upload/download is not modelled: "
+        "contents are compared on the implementation; conflict_free / conflict_free_ip (Model/OrchCheck.v) classify plans from "
+        "footprints and result styles OBSERVED on the SYNC run and the written/read columns of the generated spec",
         "gating scheduler at calculation/transform/merge entry; MULTIPROCESSING schedules are sampled, not controlled",
         "Arrow Flight is treated as a reliable key-value store"]
     big = tier == "thorough"
@@ -54,11 +59,17 @@ def run(rep: vlib.Reporter, tier: str, seed: int) -> None:
     specs += [daggen.gen_partial_request(rng) for _ in range(40 if big else 8)]
     # one uploaded table read by several other workers, the last of them late (transform steps + the join with a slow source)
     specs += [daggen.gen_shared_upload(rng) for _ in range(12 if big else 3)]
+    # unordered IN-PLACE siblings (pandas mutate / Series, python-dict rows) on one object + a consumer of all of them: every
+    # finish order of the siblings is run; one family in four has a replacing sibling (the recorded hazard)
+    specs += [daggen.gen_inplace_siblings(rng, all_inplace=(k % 4 != 3)) for k in range(32 if big else 6)]
     n_sched = 8 if big else 4
     n_mp = 3 if big else 1
     recs = [one_spec(s, rng, n_sched) for s in specs]
     cf_terms = [f"({cq_plan(r['plan'])}, {cq_foot(r['sync']['foot'])})" for r in recs]
     conflicted = set(vlib.run_cases("C06", "cf", REQ, "chk_cf", cf_terms, extra_defs=EXTRA, case_type="plan * foot", shard=60)[0])
+    # conflicts that remain when pairs of steps that are both (observed) in place on one object and touch different columns
+    # are exempted (Props/C06inplace.v: such plans are confluent under THREADING)
+    not_ip = set(vlib.run_cases("C06", "cfip", REQ, "chk_cfip", [cfip_term(r) for r in recs], extra_defs=EXTRA, case_type=CFIP_TYPE, shard=60)[0])
     conflicted_mp = set(vlib.run_cases("C06", "cfx", REQ, "chk_cfx", cf_terms,
                                        extra_defs=EXTRA + "\nDefinition chk_cfx (c : plan * foot) := conflict_free_x (fst c) (snd c).\n",
                                        case_type="plan * foot", shard=60)[0])
@@ -73,7 +84,9 @@ def run(rep: vlib.Reporter, tier: str, seed: int) -> None:
     bad_gated, ginfo = vlib.run_cases("C06", "gated", REQ, "chk_gated", gated_terms,
                                       case_type="plan * (list (list nat * nat * bool) * ostatus)", shard=60) if gated_terms else ([], {})
     found = False
-    dist: Dict[str, Any] = {"specs": len(recs), "generator": gstats, "conflicted_plans": len(conflicted), "conflicted_across_objects": len(conflicted_mp), "sync_ok": 0,
+    dist: Dict[str, Any] = {"specs": len(recs), "generator": gstats, "conflicted_plans": len(conflicted), "conflicted_plans_in_place_only (conflict_free_ip)": len(conflicted - not_ip),
+                            "observed_in_place_steps": sum(1 for r in recs for v in (r["sync"].get("style") or {}).values() if v),
+                            "conflicted_across_objects": len(conflicted_mp), "sync_ok": 0,
                             "threading_runs": 0, "threading_diverged": 0, "mp_runs": 0, "mp_diverged": 0, "mp_same": 0,
                             "in_planner_kf": 0, "mp_kf_transform": 0}
     fs = flight_server()
@@ -109,9 +122,11 @@ def run(rep: vlib.Reporter, tier: str, seed: int) -> None:
                 replay = {"kind": "gated", "spec": r["spec"], "schedule": sched}
                 if planner_kf:
                     rep.finding("C06-planner-defect-domains", what, replay)
-                elif i in conflicted:
+                elif i in conflicted and i in not_ip:
                     rep.finding("C06-unordered-conflicting-steps", what, replay)
                 else:
+                    if i in conflicted:
+                        what += " [the unordered steps sharing an object were all observed to compute IN PLACE on different columns: conflict_free_ip holds, Props/C06inplace.v says every schedule must give the SYNC tables]"
                     rep.finding(f"threading:{key}:{sched}", what, replay)
                     found = True
         # MULTIPROCESSING (sampled)
@@ -150,7 +165,8 @@ def run(rep: vlib.Reporter, tier: str, seed: int) -> None:
     rep.add("traces_validated_against_impl", len(gated_terms))
     rep.add("rule", "request DAGs as in C01; per spec: SYNC reference, n gated THREADING runs with PRNG release order, k "
                     "MULTIPROCESSING runs against one long-lived Flight server; multisets of result tables compared. non-trivial = "
-                    "a gated run with >= 2 concurrently enabled steps, or an MP run of a plan with > 2 steps")
+                    "a gated run with >= 2 concurrently enabled steps, or an MP run of a plan with > 2 steps. Families of unordered in-place "
+                    "siblings (styles inplace / series, on Pandas or PythonDict) under one consumer: EVERY finish order of the siblings")
     if recs:
         rep.sample({"spec": recs[0]["spec"], "gated": [[rd.get("released") for rd in g["rounds"]] for g in recs[0]["gated"]]})
     if not pr.ok and not found:
